@@ -1,7 +1,7 @@
 (* C02 — ID tables: every request/response is delivered to its addressee, one matching rule per router, no router twice.
    Part 1: the certified checker that is evaluated (extracted) on the netlist the REAL floogen emitted
    is sound for the semantic statement C02_on over the hardware model Hw.v. *)
-From FV Require Import Base RouteMap Graph Netlist Hw Check CheckProofs Desc Compile Routing Emit PathProofs ModelProofs.
+From FV Require Import Base RouteMap Graph Netlist Hw Check CheckProofs Desc Build Compile Routing Emit PathProofs RefOracle ModelProofs Examples.
 
 Theorem C02_checker_sound : forall n, chk_C02 n = [] -> C02_on n.
 Proof. exact chk_C02_sound. Qed.
@@ -17,7 +17,9 @@ Theorem C02_model_tables_deliver :
     d_algo (c_desc c) = ID -> gen_routing_info sp c = Ok ri -> In t (c_nis c) -> id_num (cn_id t) = Ok id ->
     (forall s p, sp (c_graph c) s (cn_name t) = Some p -> path_to_t (g_edge c) (cn_name t) p s) ->
     (forall s p q, sp (c_graph c) s (cn_name t) = Some p -> path_to_t (g_edge c) (cn_name t) q s -> (length p <= length q)%nat) ->
-    (forall s q, path_to_t (g_edge c) (cn_name t) q s -> sp (c_graph c) s (cn_name t) <> None) ->
+    forall B : nat, (1 <= B)%nat ->
+    (forall s p, sp (c_graph c) s (cn_name t) = Some p -> (length p <= B)%nat) ->
+    (forall s q, path_to_t (g_edge c) (cn_name t) q s -> (length q <= B)%nat -> sp (c_graph c) s (cn_name t) <> None) ->
     NoDup (map cr_name (c_rts c)) ->
     (forall u p, is_router c u -> sp (c_graph c) u (cn_name t) = Some p -> forall x, In x (removelast p) -> is_router c x) ->
     forall r p k, In r (c_rts c) -> sp (c_graph c) (cr_name r) (cn_name t) = Some p -> length p = S k ->
@@ -25,3 +27,29 @@ Theorem C02_model_tables_deliver :
       length v = S k /\ last v (cr_name r) = cn_name t /\ NoDup v.
 Proof. exact id_tables_deliver. Qed.
 Print Assumptions C02_model_tables_deliver.
+
+(* Part 3: the same, closed: with the verified reference oracle (RefOracle.v: iterative deepening,
+   proved to return shortest paths) the oracle hypotheses are theorems, so the statement is not vacuous. *)
+Theorem C02_model_tables_deliver_ref :
+  forall (c : compiled) (ri : rinfo) (t : cni) (id : Z),
+    d_algo (c_desc c) = ID -> gen_routing_info sp_reference c = Ok ri -> In t (c_nis c) -> id_num (cn_id t) = Ok id ->
+    NoDup (map cr_name (c_rts c)) ->
+    (forall u p, is_router c u -> sp_reference (c_graph c) u (cn_name t) = Some p ->
+                 forall x, In x (removelast p) -> is_router c x) ->
+    forall r p k, In r (c_rts c) -> sp_reference (c_graph c) (cr_name r) (cn_name t) = Some p -> length p = S k ->
+      let v := cwalk k c ri (cn_name t) id (cr_name r) in
+      length v = S k /\ last v (cr_name r) = cn_name t /\ NoDup v.
+Proof. exact id_tables_deliver_ref. Qed.
+Print Assumptions C02_model_tables_deliver_ref.
+
+(* non-vacuity: on the tree example the structural hypotheses hold (decidable forms, computed) and the
+   emitted tables lead from leaf router router_0_0 to the last leaf interface across the root *)
+Example C02_nonvacuous :
+  match (do g <- build (ex_tree ID); do c <- compile (ex_tree ID) g; do ri <- gen_routing_info sp_reference c; Ok (c, ri)) with
+  | Ok (c, ri) =>
+      nodupb str_eqb (map cr_name (c_rts c)) &&
+      forallb (transitb sp_reference c) (c_nis c) &&
+      list_eqb_str (cwalk 3 c ri "leaf_ni_3" 3 "router_0_0") ["router_0_0"; "router_0"; "router_0_1"; "leaf_ni_3"]
+  | Err _ => false
+  end = true.
+Proof. vm_compute. reflexivity. Qed.
